@@ -1,0 +1,29 @@
+//go:build verif
+
+// Contracts for the gocv verifier (comment-only file; see /verif/DESIGN.md §4).
+package black_hole
+
+// replyTo(q, r): r is a locally generated answer to q: same ID, QR set, the question copied.
+//@ spec func replyTo(q *dns.Msg, r *dns.Msg) bool = r != nil && r != q && r.Id == q.Id && r.Response && len(r.Question) == 1 && r.Question[0] == q.Question[0]
+
+// Response (C03): an answer is produced only for a single-question A / AAAA query for which
+// addresses are configured; it is built from the query with SetReply (ID and question of the
+// query), carries no additional records, and every answer record is owned by the query name.
+//@ func (b *BlackHole) Response [C03]
+//@   log bhResponse
+//@   requires b != nil && q != nil
+//@   ensures result != nil ==> len(q.Question) == 1 && fresh(result) && replyTo(q, result) && len(result.Extra) == 0 && result.Rcode == 0
+//@   ensures result != nil ==> (q.Question[0].Qtype == 1 && len(result.Answer) == len(b.ipv4)) || (q.Question[0].Qtype == 28 && len(result.Answer) == len(b.ipv6))
+//@   ensures len(q.Question) != 1 ==> result == nil
+//@   loop 0:
+//@     invariant r != nil && fresh(r) && replyTo(q, r) && len(r.Extra) == 0 && r.Rcode == 0 && len(r.Answer) == it0 && 0 <= it0
+//@   loop 1:
+//@     invariant r != nil && fresh(r) && replyTo(q, r) && len(r.Extra) == 0 && r.Rcode == 0 && len(r.Answer) == it1 && 0 <= it1
+
+// Exec (C03): the query is not touched; the response, if one is produced, answers the context's query.
+//@ func (b *BlackHole) Exec [C03]
+//@   requires b != nil && qCtx != nil && qCtx.query != nil
+//@   modifies *
+//@   ensures result == nil && calls(bhResponse) == 1 && arg(bhResponse, 0, 1) == old(qCtx.query)
+//@   ensures ret(bhResponse, 0) != nil ==> calls(SetResponse) == 1 && arg(SetResponse, 0, 0) == qCtx && arg(SetResponse, 0, 1) == ret(bhResponse, 0)
+//@   ensures ret(bhResponse, 0) == nil ==> calls(SetResponse) == 0
